@@ -388,7 +388,11 @@ def run_verus(prop, tier, seed=0, repo=None):
             if k not in marker_labels and k.split('.')[0] not in [sp[0] for sp in g.fn_spans] and prop in failed[k][1]:
                 vr.obligations.append(Obligation('%s.V.%s.%s' % (prop, u.NAME, k), 'verus', 'all-N', 'refuted', 0, detail=failed[k][0]))
         vr.functions += ['V:%s %s (%s)' % (u.NAME, f['function'], f['source']) for f in g.functions]
+        prelude_part = text[:text.find('// ===== extracted')] if '// ===== extracted' in text else ''
+        trusted = sorted(set(re.findall(r'#\[verifier::external_body\]\s*(?://[^\n]*\n\s*)*pub (?:open |closed )?(?:proof |spec )?fn (\w+)', prelude_part)))
+        uninterp = sorted(set(re.findall(r'uninterp spec fn (\w+)', prelude_part)))
         vr.extraction[u.NAME] = {'functions': g.functions, 'rules_fired_total': g.rule_stats,
+                                 'trusted_primitives_assumed_contracts': trusted, 'uninterpreted_spec_functions': uninterp,
                                  'generated_lines': len(glines), 'what_is_dropped': getattr(u, 'DROPPED', '')}
         body_part = text[text.find('// ===== extracted'):] if '// ===== extracted' in text else text
         vr.assumption_scan[u.NAME] = {k: len(re.findall(k, body_part)) for k in (r'\bassume\(', r'\badmit\(', r'external_body', r'assume_specification', r'verifier::external')}
